@@ -11,7 +11,7 @@ COQ = os.environ.get("VERIF_COQ") or os.path.join(VERIF, "coq")
 HARNESS = os.path.join(VERIF, "harness")
 SHIMS = os.path.join(VERIF, "shims")
 EVIDENCE = os.environ.get("VERIF_EVIDENCE") or os.path.join(VERIF, "evidence")
-REPLAYS = os.path.join(VERIF, "replays")
+REPLAYS = os.environ.get("VERIF_REPLAYS") or os.path.join(VERIF, "replays")
 CORPUS = os.path.join(VERIF, "corpus")
 PYTHON = "/venv/bin/python"
 GUARD = "TAHOE_LAFS_VERIF"
